@@ -2,22 +2,26 @@
 // rejection leaves the node exactly as it was.
 //
 // Engine E4 (exhaustive mutation enumeration) on a real node: chain states x valid candidate
-// blocks x every mutation operator of the table x re-signing mode {none, original miner, other
-// deputy, outsider} (thorough: all pairs of operators from different groups). Each mutated block
-// travels as RLP bytes into InsertBlock of a real node.
+// blocks x every mutation operator of the table x re-signing mode x node clock position (thorough:
+// all pairs of operators from different groups). Each mutated block travels as RLP bytes into
+// InsertBlock of a real node whose clock is the harness's (instrumenter pass `time`).
 //
-// Oracle 1 (soundness): accepted => validRef(B'), where validRef is written from the statement:
-// parent known, height = parent+1, parent.time <= time <= now+1, extra <= 256 bytes, signed by the
-// deputy whose slot it is (reference rotation) with that deputy's miner address, every tx inside its
-// window and not a replay on the ancestor path or inside the block, and the block equals what the
-// block factory produces by honestly executing (parent, the header fields a miner chooses, txs).
+// Oracle 1 (soundness): accepted => validRef(B'), where validRef (ref.go) is written from the
+// statement: parent known (and not pruned), height = parent+1, parent.time <= time <= clock+1 s,
+// extra <= 256 bytes, signed by the deputy whose slot it is (reference rotation over the reference
+// term list) with that deputy's miner address, every tx inside its window and not a replay on the
+// ancestor path or inside the block, a deputy list exactly on snapshot blocks and there equal to
+// the reference top-N of the parent's state with its Merkle root in the header, and the block equals
+// what the block factory produces by honestly executing (parent, the header fields a miner chooses,
+// txs).
 // Oracle 2 (no side effects): rejected => snapshot before == snapshot after.
+// Oracle 3 (the tolerance is granted): validRef(B') and B' above the stable height and its term
+// loaded => accepted.
+// Files: world.go (trees, states, candidates), ops.go (operators, signing modes), ref.go (reference).
 package main
 
 import (
-	"bytes"
 	"fmt"
-	"math/big"
 	"os"
 	"sort"
 	"strings"
@@ -25,6 +29,7 @@ import (
 
 	"verifmc/core"
 	"verifmc/node"
+	"verifmc/vclock"
 	"verifmc/vtask"
 
 	"github.com/LemoFoundationLtd/lemochain-core/chain/params"
@@ -34,301 +39,26 @@ import (
 )
 
 const prop = "C02"
-const nDep = 3
-
-var t0 = node.GenesisTime + 100000
 
 // ---------------------------------------------------------------------------------------------
-// chain states
+// the node's clock
 
-type state struct {
-	name   string
-	blocks []string // delivery order; "cf:<block>:<deputy>" delivers a confirm
+type clockPos struct {
+	name  string
+	offMs int64 // node clock minus the valid candidate's timestamp, milliseconds
 }
 
-var states = []state{
-	{"fresh", []string{"f"}},
-	{"chain3", []string{"f", "a1", "a2"}},
-	{"forks", []string{"f", "a1", "a2", "b1"}},
-	{"after-stable", []string{"f", "a1", "cf:a1:2", "a2"}},
-}
-
-// tree (built once per worker in the factory): f on g by d0; a1 on f by d1; a2 on a1 by d2; b1 on f by d2
-type tree struct {
-	f      *node.Factory
-	blocks map[string]*types.Block
-	txT    *types.Transaction // in a1
-	txNew  *types.Transaction // fresh valid tx for candidate blocks
-	txNew2 *types.Transaction // another fresh valid tx (by user 2)
-}
-
-var tr *tree
-
-func slot(f *node.Factory, parent *types.Block, rank int, notBefore uint32) uint32 {
-	tm, ok := node.SlotTime(f.DM, parent, node.Deputy(rank), nDep)
-	if !ok {
-		panic("harness: no slot")
-	}
-	for tm < notBefore {
-		tm += nDep * 10
-	}
-	return tm
-}
-
-func buildTree() *tree {
-	f := node.NewFactory(core.ScratchDir("c02f"), nDep)
-	t := &tree{f: f, blocks: map[string]*types.Block{"g": f.BC.Genesis()}}
-	exp := uint64(t0 + 1500)
-	var fund types.Transactions
-	for i := 0; i < 3; i++ {
-		fund = append(fund, node.Transfer(node.Founder(), node.User(i).Addr, node.Lemo(1000), exp+uint64(i)))
-	}
-	t.txT = node.Transfer(node.User(0), node.User(1).Addr, node.Lemo(1), exp)
-	t.txNew = node.Transfer(node.User(1), node.User(2).Addr, node.Lemo(2), exp)
-	t.txNew2 = node.Transfer(node.User(2), node.User(1).Addr, node.Lemo(3), exp)
-	mk := func(name, parent string, rank int, txs types.Transactions) {
-		p := t.blocks[parent]
-		b, inv, err := f.Make(node.BlockSpec{Parent: p, Miner: node.Deputy(rank), Time: slot(f, p, rank, t0), Txs: txs, Extra: name})
-		if err != nil || len(inv) > 0 {
-			panic(fmt.Sprintf("harness: %s: %v %d", name, err, len(inv)))
-		}
-		t.blocks[name] = b
-	}
-	mk("f", "g", 0, fund)
-	mk("a1", "f", 1, types.Transactions{t.txT})
-	mk("a2", "a1", 2, nil)
-	mk("b1", "f", 2, nil)
-	return t
-}
-
-// ---------------------------------------------------------------------------------------------
-// candidate blocks
-
-type candidate struct {
-	name   string
-	parent string // block name
-	rank   int
-	txs    func(t *tree) types.Transactions
-}
-
-var candidates = map[string][]candidate{
-	"fresh":        {{"empty-on-head", "f", 1, nil}, {"tx-on-head", "f", 1, func(t *tree) types.Transactions { return types.Transactions{t.txNew} }}},
-	"chain3":       {{"tx-on-head", "a2", 0, func(t *tree) types.Transactions { return types.Transactions{t.txNew} }}, {"empty-on-mid", "a1", 0, nil}},
-	"forks":        {{"tx-on-short-fork", "b1", 0, func(t *tree) types.Transactions { return types.Transactions{t.txNew} }}, {"empty-on-head", "a2", 0, nil}},
-	"after-stable": {{"tx-on-head", "a2", 0, func(t *tree) types.Transactions { return types.Transactions{t.txNew} }}},
-}
-
-// ---------------------------------------------------------------------------------------------
-// mutation operators
-
-type op struct {
-	group, name string
-	apply       func(b *types.Block, c *ctx)
-}
-
-type ctx struct {
-	t      *tree
-	parent *types.Block
-	now    uint32
-}
-
-func flip(h common.Hash) common.Hash { h[7] ^= 0x40; return h }
-
-func ops() []op {
-	var l []op
-	add := func(g, n string, f func(b *types.Block, c *ctx)) { l = append(l, op{g, n, f}) }
-	add("none", "identity", func(b *types.Block, c *ctx) {})
-	// header
-	add("parent", "parent=grandparent", func(b *types.Block, c *ctx) { b.Header.ParentHash = c.parent.ParentHash() })
-	add("parent", "parent=unknown", func(b *types.Block, c *ctx) { b.Header.ParentHash = flip(b.Header.ParentHash) })
-	add("parent", "parent=sibling-fork", func(b *types.Block, c *ctx) { b.Header.ParentHash = c.t.blocks["b1"].Hash() })
-	add("miner", "miner=other-deputy", func(b *types.Block, c *ctx) {
-		for i := 0; i < nDep; i++ {
-			if node.Deputy(i).Addr != b.Header.MinerAddress {
-				b.Header.MinerAddress = node.Deputy(i).Addr
-				return
-			}
-		}
-	})
-	add("miner", "miner=outsider", func(b *types.Block, c *ctx) { b.Header.MinerAddress = node.K("outsider").Addr })
-	add("roots", "versionRoot-flipped", func(b *types.Block, c *ctx) { b.Header.VersionRoot = flip(b.Header.VersionRoot) })
-	add("roots", "versionRoot-zero", func(b *types.Block, c *ctx) { b.Header.VersionRoot = common.Hash{} })
-	add("roots", "logRoot-flipped", func(b *types.Block, c *ctx) { b.Header.LogRoot = flip(b.Header.LogRoot) })
-	add("roots", "txRoot-flipped", func(b *types.Block, c *ctx) { b.Header.TxRoot = flip(b.Header.TxRoot) })
-	add("roots", "deputyRoot-junk", func(b *types.Block, c *ctx) { b.Header.DeputyRoot = []byte{1, 2, 3} })
-	add("height", "height+1", func(b *types.Block, c *ctx) { b.Header.Height++ })
-	add("height", "height-1", func(b *types.Block, c *ctx) { b.Header.Height-- })
-	add("height", "height=0", func(b *types.Block, c *ctx) { b.Header.Height = 0 })
-	add("height", "height=max", func(b *types.Block, c *ctx) { b.Header.Height = 0xffffffff })
-	add("gas", "gasLimit+1", func(b *types.Block, c *ctx) { b.Header.GasLimit++ })
-	add("gas", "gasLimit=0", func(b *types.Block, c *ctx) { b.Header.GasLimit = 0 })
-	add("gas", "gasUsed+1", func(b *types.Block, c *ctx) { b.Header.GasUsed++ })
-	add("gas", "gasUsed=0", func(b *types.Block, c *ctx) { b.Header.GasUsed = 0 })
-	add("time", "time=parent-1", func(b *types.Block, c *ctx) { b.Header.Time = c.parent.Time() - 1 })
-	add("time", "time=parent", func(b *types.Block, c *ctx) { b.Header.Time = c.parent.Time() })
-	add("time", "time-1(previous slot)", func(b *types.Block, c *ctx) { b.Header.Time-- })
-	add("time", "time+9(last second of slot)", func(b *types.Block, c *ctx) { b.Header.Time += 9 })
-	add("time", "time+10(next slot)", func(b *types.Block, c *ctx) { b.Header.Time += 10 })
-	add("time", "time+30(same deputy next round)", func(b *types.Block, c *ctx) { b.Header.Time += nDep * 10 })
-	add("time", "time=now+100", func(b *types.Block, c *ctx) { b.Header.Time = c.now + 100 })
-	add("time", "time=now+1000000", func(b *types.Block, c *ctx) { b.Header.Time = c.now + 1000000 })
-	add("time", "time=0", func(b *types.Block, c *ctx) { b.Header.Time = 0 })
-	add("time", "time=1", func(b *types.Block, c *ctx) { b.Header.Time = 1 })
-	add("time", "time=max", func(b *types.Block, c *ctx) { b.Header.Time = 0xffffffff })
-	add("extra", "extra=256", func(b *types.Block, c *ctx) { b.Header.Extra = strings.Repeat("x", 256) })
-	add("extra", "extra=257", func(b *types.Block, c *ctx) { b.Header.Extra = strings.Repeat("x", 257) })
-	add("extra", "extra=100000", func(b *types.Block, c *ctx) { b.Header.Extra = strings.Repeat("x", 100000) })
-	// body: transactions
-	add("txs", "txs-dropped", func(b *types.Block, c *ctx) { b.Txs = nil })
-	add("txs", "tx-duplicated", func(b *types.Block, c *ctx) {
-		if len(b.Txs) > 0 {
-			b.Txs = append(b.Txs, b.Txs[0])
-		} else {
-			b.Txs = types.Transactions{c.t.txNew, c.t.txNew}
-		}
-	})
-	add("txs", "tx-added(valid)", func(b *types.Block, c *ctx) {
-		b.Txs = append(b.Txs, node.Transfer(node.User(2), node.User(0).Addr, node.Lemo(1), uint64(t0+1500)))
-	})
-	add("txs", "tx-replayed-from-ancestor", func(b *types.Block, c *ctx) { b.Txs = append(b.Txs, c.t.txT) })
-	add("txs", "tx-expired", func(b *types.Block, c *ctx) {
-		b.Txs = append(b.Txs, node.Transfer(node.User(2), node.User(0).Addr, node.Lemo(1), uint64(b.Header.Time-1)))
-	})
-	add("txs", "tx-not-yet-valid", func(b *types.Block, c *ctx) {
-		b.Txs = append(b.Txs, node.Transfer(node.User(2), node.User(0).Addr, node.Lemo(1), uint64(b.Header.Time+1801)))
-	})
-	add("txs", "tx-wrong-chain", func(b *types.Block, c *ctx) {
-		to := node.User(0).Addr
-		b.Txs = append(b.Txs, node.Tx(node.TxSpec{Type: params.OrdinaryTx, From: node.User(2), To: &to, Amount: node.Lemo(1), Exp: uint64(t0 + 1500), ChainID: 201}))
-	})
-	add("txs", "tx-signed-by-outsider", func(b *types.Block, c *ctx) {
-		to := node.User(0).Addr
-		un := node.Unsigned(node.TxSpec{Type: params.OrdinaryTx, From: node.User(2), To: &to, Amount: node.Lemo(1), Exp: uint64(t0 + 1500)})
-		b.Txs = append(b.Txs, node.SignWith(un, node.K("outsider").Priv))
-	})
-	add("txs", "tx-unaffordable", func(b *types.Block, c *ctx) {
-		b.Txs = append(b.Txs, node.Transfer(node.K("pauper"), node.User(0).Addr, node.Lemo(1), uint64(t0+1500)))
-	})
-	add("txs", "tx-gasUsed-tampered", func(b *types.Block, c *ctx) {
-		if len(b.Txs) > 0 {
-			cp := b.Txs[0].Clone()
-			cp.SetGasUsed(cp.GasUsed() + 1)
-			b.Txs = append(types.Transactions{cp}, b.Txs[1:]...)
-		}
-	})
-	// body: transactions, EXECUTED. The operators above change the list without re-executing, so the
-	// block is also inconsistent with its roots and a node may refuse it for that reason alone. A
-	// cheating deputy would execute what it packages: these operators let the block factory (the
-	// real assembler, which performs no window / replay checks) execute the changed list, so the
-	// block is consistent in every root and gas figure and wrong ONLY in the transaction it carries.
-	executed := func(name string, mk func(b *types.Block, c *ctx) types.Transactions) {
-		add("txs-executed", name, func(b *types.Block, c *ctx) {
-			rank := -1
-			for i := 0; i < nDep; i++ {
-				if node.Deputy(i).Addr == b.Header.MinerAddress {
-					rank = i
-				}
-			}
-			if rank < 0 {
-				return
-			}
-			txs := mk(b, c)
-			nb, inv, err := c.t.f.Make(node.BlockSpec{Parent: c.parent, Miner: node.Deputy(rank), Time: b.Header.Time, Txs: txs, Extra: b.Header.Extra, NoSave: true})
-			if err != nil || len(inv) > 0 || len(nb.Txs) != len(txs) {
-				return // the assembler itself does not package it: nothing to offer
-			}
-			*b = *node.Wire(nb)
-		})
-	}
-	plus := func(b *types.Block, tx *types.Transaction) types.Transactions {
-		return append(append(types.Transactions{}, b.Txs...), tx)
-	}
-	executed("tx-expired(executed)", func(b *types.Block, c *ctx) types.Transactions {
-		return plus(b, node.Transfer(node.User(2), node.User(0).Addr, node.Lemo(1), uint64(b.Header.Time-1)))
-	})
-	executed("tx-expires-now(executed,valid)", func(b *types.Block, c *ctx) types.Transactions {
-		return plus(b, node.Transfer(node.User(2), node.User(0).Addr, node.Lemo(1), uint64(b.Header.Time)))
-	})
-	executed("tx-lifetime-1800(executed,valid)", func(b *types.Block, c *ctx) types.Transactions {
-		return plus(b, node.Transfer(node.User(2), node.User(0).Addr, node.Lemo(1), uint64(b.Header.Time+1800)))
-	})
-	executed("tx-lifetime-1801(executed)", func(b *types.Block, c *ctx) types.Transactions {
-		return plus(b, node.Transfer(node.User(2), node.User(0).Addr, node.Lemo(1), uint64(b.Header.Time+1801)))
-	})
-	executed("tx-replayed-from-ancestor(executed)", func(b *types.Block, c *ctx) types.Transactions { return plus(b, c.t.txT) })
-	executed("tx-duplicated(executed)", func(b *types.Block, c *ctx) types.Transactions {
-		return append(plus(b, c.t.txNew2), c.t.txNew2)
-	})
-	executed("tx-wrong-chain(executed)", func(b *types.Block, c *ctx) types.Transactions {
-		to := node.User(0).Addr
-		return plus(b, node.Tx(node.TxSpec{Type: params.OrdinaryTx, From: node.User(2), To: &to, Amount: node.Lemo(1), Exp: uint64(t0 + 1500), ChainID: 201}))
-	})
-	executed("box-sub-tx-lifetime-1801(executed)", func(b *types.Block, c *ctx) types.Transactions {
-		sub := node.Transfer(node.User(2), node.User(0).Addr, node.Lemo(1), uint64(b.Header.Time+1801))
-		return plus(b, node.Box(node.User(0), uint64(b.Header.Time+100), sub))
-	})
-	executed("box-sub-tx-expired(executed)", func(b *types.Block, c *ctx) types.Transactions {
-		sub := node.Transfer(node.User(2), node.User(0).Addr, node.Lemo(1), uint64(b.Header.Time-1))
-		return plus(b, node.Box(node.User(0), uint64(b.Header.Time+100), sub))
-	})
-	// body: change logs
-	add("logs", "logs-dropped", func(b *types.Block, c *ctx) { b.ChangeLogs = nil })
-	add("logs", "log-first-dropped", func(b *types.Block, c *ctx) {
-		if len(b.ChangeLogs) > 0 {
-			b.ChangeLogs = b.ChangeLogs[1:]
-		}
-	})
-	add("logs", "log-value-altered", func(b *types.Block, c *ctx) {
-		for i, l := range b.ChangeLogs {
-			if v, ok := l.NewVal.(big.Int); ok {
-				cp := *l
-				cp.NewVal = *new(big.Int).Add(&v, big.NewInt(1))
-				nl := append(types.ChangeLogSlice{}, b.ChangeLogs...)
-				nl[i] = &cp
-				b.ChangeLogs = nl
-				return
-			}
-		}
-	})
-	add("logs", "log-duplicated", func(b *types.Block, c *ctx) {
-		if len(b.ChangeLogs) > 0 {
-			b.ChangeLogs = append(b.ChangeLogs, b.ChangeLogs[0])
-		}
-	})
-	// body: deputy nodes on an ordinary block
-	add("deputies", "deputyNodes-present", func(b *types.Block, c *ctx) { b.DeputyNodes = c.t.blocks["g"].DeputyNodes })
-	return l
-}
-
-// resign modes
-var modes = []string{"keep-signature", "resign-miner", "resign-other-deputy", "resign-outsider", "signature-junk", "signature-empty"}
-
-func resign(b *types.Block, mode string, origRank int) {
-	var k *node.Key
-	switch mode {
-	case "keep-signature":
-		return
-	case "resign-miner":
-		k = node.Deputy(origRank)
-	case "resign-other-deputy":
-		k = node.Deputy((origRank + 1) % nDep)
-	case "resign-outsider":
-		k = node.K("outsider")
-	case "signature-junk":
-		b.Header.SignData = bytes.Repeat([]byte{0x5a}, 65)
-		return
-	case "signature-empty":
-		b.Header.SignData = nil
-		return
-	}
-	sd := node.SignConfirm(k, b.Header.Hash())
-	b.Header.SignData = sd[:]
-}
-
-// fixRoots recomputes TxRoot/LogRoot from the body (what a cheating miner would do before signing).
-func fixRoots(b *types.Block) {
-	b.Header.TxRoot = b.Txs.MerkleRootSha()
-	b.Header.LogRoot = b.ChangeLogs.MerkleRootSha()
+// clocks[0] is the default of the operator product: the node's clock is two full rounds and one
+// second later than the block, so that every time operator that stays inside the schedule is in the
+// past, now-1 .. now+3 all lie inside one slot of the candidate's miner, and the candidate's
+// transactions are still inside their lifetime at those instants.
+var clocks = []clockPos{
+	{"late(+61s)", 61000},
+	{"-2s.000", -2000}, {"-2s.999", -1001},
+	{"-1s.000", -1000}, {"-1s.999", -1},
+	{"0s.000", 0}, {"0s.999", 999},
+	{"+1s.000", 1000}, {"+1s.999", 1999},
+	{"+2s.000", 2000}, {"+2s.999", 2999},
 }
 
 // ---------------------------------------------------------------------------------------------
@@ -340,12 +70,12 @@ type nut struct {
 	clean bool
 }
 
-// drain runs the goroutines the engines have asked for (the `go` statements of chain and
-// chain/consensus are gated through the source overlay) to completion, with the node's own key as
-// the process-global self key. Without this they run whenever the Go scheduler likes, possibly
-// while the block factory has switched the self key to a deputy's: a background batch confirm then
-// signs a stable block "as that deputy" at an arbitrary moment, which looked like a side effect of
-// whatever block was being rejected at that time.
+// drain runs the goroutines and timers the engines have asked for (the `go` statements and
+// time.AfterFunc calls of chain and chain/consensus are gated through the source overlay) to
+// completion, with the node's own key as the process-global self key. Without this they run whenever
+// the Go scheduler likes, possibly while the block factory has switched the self key to a deputy's:
+// a background batch confirm then signs a stable block "as that deputy" at an arbitrary moment, which
+// looked like a side effect of whatever block was being rejected at that time.
 func drain(n *node.Node) {
 	n.Use()
 	for len(vtask.Pending()) > 0 {
@@ -354,6 +84,7 @@ func drain(n *node.Node) {
 }
 
 func newNut(st state) *nut {
+	vclock.SetUnix(lateClock)
 	n := node.NewNode(core.ScratchDir("c02o"), nDep, node.K("observer"))
 	drain(n)
 	for _, e := range st.blocks {
@@ -374,13 +105,24 @@ func newNut(st state) *nut {
 		drain(n)
 	}
 	drain(n)
+	// the reference's idea of this state must be the node's
+	si := infoOf(st)
+	if n.BC.StableBlock().Hash() != si.stable.Hash() {
+		panic(fmt.Sprintf("harness: state %s: stable block is %s, the reference expects %s", st.name, tr.name[n.BC.StableBlock().Hash()], tr.name[si.stable.Hash()]))
+	}
+	if n.BC.CurrentBlock().Hash() != tr.blocks[si.head].Hash() {
+		panic(fmt.Sprintf("harness: state %s: head is %s, the reference expects %s", st.name, tr.name[n.BC.CurrentBlock().Hash()], si.head))
+	}
 	return &nut{st: st, n: n, clean: true}
 }
 
 var watch = func() []common.Address {
-	l := []common.Address{node.Founder().Addr, node.K("outsider").Addr, node.K("pauper").Addr}
+	l := []common.Address{node.Founder().Addr, node.K("outsider").Addr, node.K("pauper").Addr, params.DepositPoolAddress, params.TermRewardContract}
 	for i := 0; i < 3; i++ {
-		l = append(l, node.User(i).Addr, node.Deputy(i).Addr, node.K(fmt.Sprintf("income%d", i)).Addr)
+		l = append(l, node.User(i).Addr, node.Deputy(i).Addr, node.K(fmt.Sprintf("income%d", i)).Addr, node.K(fmt.Sprintf("v%d", i)).Addr)
+	}
+	for i := 0; i < 4; i++ {
+		l = append(l, node.K(fmt.Sprintf("c%d", i)).Addr)
 	}
 	return l
 }()
@@ -411,6 +153,14 @@ func (u *nut) snapshot() string {
 	}
 	sort.Strings(ph)
 	fmt.Fprintf(&sb, "pool=%v guardT=%v guardNew=%v\n", ph, n.BC.TxGuard().ExistTx(head.Hash(), tr.txT), n.BC.TxGuard().ExistTx(head.Hash(), tr.txNew))
+	// the term list: who may sign in the genesis term, in the next one and in the one after
+	for _, h := range []uint32{1, termDur + interim + 1, 2*termDur + interim + 1} {
+		var l []string
+		for _, d := range n.DM.GetDeputiesByHeight(h, true) {
+			l = append(l, fmt.Sprintf("%x/%x/%d/%s", d.MinerAddress[16:], d.NodeID[:3], d.Rank, d.Votes))
+		}
+		fmt.Fprintf(&sb, "term=signers@%d %v\n", h, l)
+	}
 	return sb.String()
 }
 
@@ -421,131 +171,30 @@ type caseID struct {
 	Ops         []int
 	Mode        int
 	FixRoots    bool
+	Clock       int  // index into clocks (0 = 61 s late)
+	DepRoot     bool // recompute the DeputyRoot from the (altered) deputy list before signing
 }
 
-func (c caseID) String(all []op) string {
+func (c caseID) opNames(all []op) []string {
 	names := make([]string, len(c.Ops))
 	for i, o := range c.Ops {
 		names[i] = all[o].name
 	}
-	return fmt.Sprintf("state=%s block=%s ops=[%s] fixRoots=%v sign=%s", states[c.State].name, candidates[states[c.State].name][c.Cand].name, strings.Join(names, " + "), c.FixRoots, modes[c.Mode])
+	return names
 }
 
-// refRank: the deputy whose slot `tm` is, for a block on `parent` (reference rotation, 3 genesis deputies, 10 s slots).
-func refRank(parent *types.Block, tm uint32) (int, bool) {
-	if tm < parent.Time() {
-		return 0, false
+func (c caseID) String(all []op) string {
+	s := fmt.Sprintf("state=%s block=%s ops=[%s] fixRoots=%v sign=%s", states[c.State].name, candidates[states[c.State].name][c.Cand].name, strings.Join(c.opNames(all), " + "), c.FixRoots, modes[c.Mode])
+	if c.DepRoot {
+		s += " deputyRoot=recomputed"
 	}
-	d := int((tm-parent.Time())/10)%nDep + 1
-	if parent.Height() == 0 {
-		return (d - 1) % nDep, true
+	if c.Clock != 0 {
+		s += " clock=block.time" + clocks[c.Clock].name
 	}
-	pr := -1
-	for i := 0; i < nDep; i++ {
-		if node.Deputy(i).Addr == parent.MinerAddress() {
-			pr = i
-		}
-	}
-	if pr < 0 {
-		return 0, false
-	}
-	return (pr + d) % nDep, true
+	return s
 }
 
-// validRef decides from the statement whether blk may be accepted by a node that knows `known` blocks.
-func validRef(blk *types.Block, nowSec uint32) (bool, string) {
-	var parent *types.Block
-	for _, b := range tr.blocks {
-		if b.Hash() == blk.ParentHash() {
-			parent = b
-		}
-	}
-	if parent == nil {
-		return false, "parent unknown"
-	}
-	if blk.Height() != parent.Height()+1 {
-		return false, "height"
-	}
-	if blk.Time() < parent.Time() {
-		return false, "time before parent"
-	}
-	if blk.Time() > nowSec+1 {
-		return false, "time in the future"
-	}
-	if len(blk.Extra()) > 256 {
-		return false, "extra too long"
-	}
-	rank, ok := refRank(parent, blk.Time())
-	if !ok {
-		return false, "no deputy in turn"
-	}
-	id, err := blk.SignerNodeID()
-	if err != nil || !bytes.Equal(id, node.Deputy(rank).NodeID) {
-		return false, "not signed by the deputy in turn"
-	}
-	if blk.MinerAddress() != node.Deputy(rank).Addr {
-		return false, "miner address is not the signer's"
-	}
-	// transactions: window, replay (ancestor path and inside the block)
-	seen := map[common.Hash]bool{}
-	for p := parent; p != nil && p.Height() > 0; {
-		for _, tx := range p.Txs {
-			seen[tx.Hash()] = true
-		}
-		var pp *types.Block
-		for _, b := range tr.blocks {
-			if b.Hash() == p.ParentHash() {
-				pp = b
-			}
-		}
-		p = pp
-	}
-	// every transaction the block executes: its own list and the sub-transactions of boxes
-	var all types.Transactions
-	for _, tx := range blk.Txs {
-		all = append(all, tx)
-		if tx.Type() == params.BoxTx {
-			if box, err := types.GetBox(tx.Data()); err == nil {
-				all = append(all, box.SubTxList...)
-			}
-		}
-	}
-	for _, tx := range all {
-		if seen[tx.Hash()] {
-			return false, "replayed tx"
-		}
-		seen[tx.Hash()] = true
-		if tx.Expiration() < uint64(blk.Time()) || tx.Expiration()-uint64(blk.Time()) > 1800 {
-			return false, "tx outside its window"
-		}
-		if tx.ChainID() != node.ChainID {
-			return false, "tx of another chain"
-		}
-	}
-	if len(blk.DeputyNodes) > 0 || len(blk.DeputyRoot()) > 0 {
-		return false, "deputy list / deputy root on a block that is not a snapshot block"
-	}
-	// honest re-execution with the same miner choices must reproduce the block
-	txs := make(types.Transactions, len(blk.Txs))
-	for i, tx := range blk.Txs {
-		cp := tx.Clone()
-		cp.SetGasUsed(0)
-		txs[i] = cp
-	}
-	hon, inv, err := tr.f.Make(node.BlockSpec{Parent: parent, Miner: node.Deputy(rank), Time: blk.Time(), Txs: txs, Extra: blk.Extra(), NoSave: true, GasLimit: blk.Header.GasLimit, SetGasLimit: true})
-	if err != nil || len(inv) > 0 || len(hon.Txs) != len(txs) {
-		return false, "honest execution does not package these transactions"
-	}
-	if hon.Hash() != blk.Hash() {
-		return false, "differs from honest execution (roots / gas figures)"
-	}
-	for i := range hon.Txs {
-		if hon.Txs[i].GasUsed() != blk.Txs[i].GasUsed() {
-			return false, "tx gasUsed differs from honest execution"
-		}
-	}
-	return true, ""
-}
+var replayMode bool
 
 func runCase(u *nut, c caseID, all []op, r *core.Result) *nut {
 	st := states[c.State]
@@ -555,40 +204,45 @@ func runCase(u *nut, c caseID, all []op, r *core.Result) *nut {
 		}
 		u = newNut(st)
 	}
+	si := infoOf(st)
 	cand := candidates[st.name][c.Cand]
 	parent := tr.blocks[cand.parent]
-	var txs types.Transactions
-	if cand.txs != nil {
-		txs = cand.txs(tr)
-	}
-	base, inv, err := tr.f.Make(node.BlockSpec{Parent: parent, Miner: node.Deputy(cand.rank), Time: slot(tr.f, parent, cand.rank, t0), Txs: txs, Extra: "cand", NoSave: true})
-	if err != nil || len(inv) > 0 {
-		panic(fmt.Sprintf("harness: candidate: %v", err))
-	}
+	base := baseBlock(st, c.Cand)
 	blk := node.Wire(base)
-	now := uint32(time.Now().Unix())
-	cx := &ctx{t: tr, parent: parent, now: now}
+	nowMs := int64(base.Time())*1000 + clocks[c.Clock].offMs
+	cx := &ctx{t: tr, parent: parent, base: base, cand: cand, si: si, now: uint32(nowMs / 1000)}
 	for _, o := range c.Ops {
 		all[o].apply(blk, cx)
+	}
+	if cx.skip {
+		r.Add("not_applicable", 1)
+		return u
 	}
 	if c.FixRoots {
 		fixRoots(blk)
 	}
-	resign(blk, modes[c.Mode], cand.rank)
+	if c.DepRoot {
+		root := blk.DeputyNodes.MerkleRootSha()
+		blk.Header.DeputyRoot = root[:]
+	}
+	resign(blk, modes[c.Mode], cx)
 	enc, err := rlp.EncodeToBytes(blk)
 	if err != nil {
 		r.Outcome("unencodable")
+		r.Add("unencodable", 1)
 		return u
 	}
 	var wire types.Block
 	if err := rlp.DecodeBytes(enc, &wire); err != nil {
 		r.Outcome("undecodable:" + all[c.Ops[len(c.Ops)-1]].group)
+		r.Add("undecodable", 1)
 		return u
 	}
 	desc := c.String(all)
 	drain(u.n) // anything the factory's own engine queued while building the candidate
 	before := u.snapshot()
 	u.n.Use()
+	vclock.SetUnixMilli(nowMs)
 	var ierr error
 	func() {
 		defer func() {
@@ -602,30 +256,65 @@ func runCase(u *nut, c caseID, all []op, r *core.Result) *nut {
 		// background work the insertion started belongs to its effects: run it before looking
 		drain(u.n)
 	}()
+	vclock.SetUnix(lateClock)
 	if !u.clean {
 		// the instance is poisoned (panic while holding the chain lock): abandon without Close
 		os.RemoveAll(u.n.Dir)
 		return nil
 	}
-	accepted := ierr == nil && u.n.BC.HasBlock(wire.Hash())
-	opn := "none"
+	var dec types.Block
+	rlp.DecodeBytes(enc, &dec)
+	known := si.delivered[dec.Hash()] || dec.Hash() == tr.blocks["g"].Hash()
+	accepted := ierr == nil && u.n.BC.HasBlock(wire.Hash()) && !known
+	opn, opfull := "none", "identity"
 	if len(c.Ops) > 0 {
 		opn = all[c.Ops[0]].group
+		opfull = opn + ":" + all[c.Ops[0]].name
+	}
+	single := len(c.Ops) == 1
+	verdict := "rejected"
+	if accepted {
+		verdict = "accepted"
+	}
+	if replayMode {
+		fmt.Printf("InsertBlock returned %v; block stored: %v; verdict: %s\n", ierr, u.n.BC.HasBlock(wire.Hash()), verdict)
+	}
+	// evidence: which operator / clock position ended how
+	if single && c.Clock == 0 {
+		r.Add("op["+opfull+"]/"+verdict, 1)
+	}
+	if c.Clock != 0 {
+		r.Add("clock[block.time"+clocks[c.Clock].name+"]/"+verdict, 1)
+		if single && opn == "none" && c.Mode == 0 {
+			r.Add("clock[block.time"+clocks[c.Clock].name+"]/valid-block/"+verdict, 1)
+		}
+		r.Outcome("clock/" + clocks[c.Clock].name + "/" + verdict)
+	}
+	if single && opn == "none" && c.Mode == 0 && c.Clock == 0 {
+		r.Add("valid-candidate["+st.name+"/"+cand.name+"]/"+verdict, 1)
+	}
+	valid, why := validRef(&dec, nowMs, si)
+	if replayMode {
+		fmt.Printf("reference: valid=%v %s\n", valid, why)
 	}
 	if accepted {
 		u.clean = false
-		var dec types.Block
-		rlp.DecodeBytes(enc, &dec)
-		ok, why := validRef(&dec, now)
-		if !ok {
-			names := make([]string, len(c.Ops))
-			for i, o := range c.Ops {
-				names[i] = all[o].name
+		if !valid {
+			fp := prop + "/invalid-block-accepted/" + why + "/" + strings.Join(c.opNames(all), "+") + "/" + modes[c.Mode]
+			// when the UNMUTATED candidate (what the real assembler seals) already fails the reference for
+			// this very reason, the operator is not part of the minimal case: one class per candidate
+			if bok, bwhy := validRef(node.Wire(base), int64(base.Time())*1000+clocks[0].offMs, si); !bok && bwhy == why {
+				fp = prop + "/invalid-block-accepted/" + why + "/unmutated-candidate:" + cand.name
 			}
-			r.Violate(prop+"/invalid-block-accepted/"+why+"/"+strings.Join(names, "+")+"/"+modes[c.Mode], fmt.Sprintf("accepted although %s: %s", why, desc), c)
+			r.Violate(fp, fmt.Sprintf("accepted although %s: %s", why, desc), c)
 		}
 		r.Outcome("accepted/" + opn + "/" + modes[c.Mode])
 		r.Add("accepted", 1)
+		if isSnapshotHeight(dec.Height()) {
+			if u = probeTermLoad(u, &dec, desc, c, r); u == nil {
+				return nil
+			}
+		}
 	} else {
 		after := u.snapshot()
 		if after != before {
@@ -634,6 +323,75 @@ func runCase(u *nut, c caseID, all []op, r *core.Result) *nut {
 		}
 		r.Outcome("rejected/" + opn + "/" + modes[c.Mode])
 		r.Add("rejected", 1)
+		if known {
+			r.Add("known-block-reinserted/unchanged", 1)
+		}
+		// Oracle 3: a block that satisfies every clause of the statement is not refused, provided the
+		// node can judge it at all (it is above the stable height and the signing term is loaded).
+		termLoaded := dec.Height() < termDur+interim+1 || si.stable.Height() >= (dec.Height()-interim-1)/termDur*termDur
+		// (a body whose change logs do not hash to the header's LogRoot is rightly refused although the
+		// header is the honest one: the statement's "reproduces every root" is about what was sent)
+		if valid && len(dec.ChangeLogs) > 0 && dec.ChangeLogs.MerkleRootSha() != dec.LogRoot() {
+			valid = false
+			r.Add("honest-header-with-foreign-change-logs/rejected", 1)
+		}
+		if valid && dec.Height() > si.stable.Height() && termLoaded {
+			r.Violate(prop+"/valid-block-rejected/"+strings.Join(c.opNames(all), "+")+"/"+modes[c.Mode]+clockClass(c.Clock), fmt.Sprintf("rejected (%v) although the block satisfies every clause of the statement: %s", ierr, desc), c)
+		}
+		if valid && !(dec.Height() > si.stable.Height() && termLoaded) {
+			r.Add("valid-but-not-judgeable(term not loaded / not above stable)", 1)
+		}
+	}
+	return u
+}
+
+func clockClass(i int) string {
+	if i == 0 {
+		return ""
+	}
+	return "/clock=block.time" + clocks[i].name
+}
+
+// probeTermLoad: an accepted snapshot block is what every node loads the next term from once it is
+// stable. Deliver one more deputy's confirm and watch the node digest it.
+func probeTermLoad(u *nut, b *types.Block, desc string, c caseID, r *core.Result) *nut {
+	var signer *node.Key
+	for _, d := range refDeputies(tr, b.Height(), tr.byHash[b.ParentHash()]) {
+		if d.Addr != b.MinerAddress() {
+			signer = keyOfDep(d)
+			break
+		}
+	}
+	if signer == nil {
+		return u
+	}
+	u.n.Use()
+	poisoned := false
+	func() {
+		defer func() {
+			if p := recover(); p != nil {
+				poisoned = true
+				r.Violate(prop+"/accepted-snapshot-block-cannot-become-stable/panic:"+firstWords(fmt.Sprint(p)), fmt.Sprintf("the accepted snapshot block made the node panic (%v) when a second deputy's confirm made it stable: %s\ndeputy list in the block: %s", p, desc, b.DeputyNodes), c)
+			}
+		}()
+		u.n.BC.InsertConfirms(b.Height(), b.Hash(), []types.SignData{node.SignConfirm(signer, b.Hash())})
+		drain(u.n)
+	}()
+	if poisoned {
+		os.RemoveAll(u.n.Dir)
+		return nil
+	}
+	if u.n.BC.StableBlock().Hash() == b.Hash() {
+		r.Add("accepted-snapshot-block/became-stable-and-term-loaded", 1)
+		got := u.n.DM.GetDeputiesByHeight(b.Height()+interim+1, true)
+		want := refTop(b.ParentHash())
+		same := len(got) == len(want)
+		for i := 0; same && i < len(got); i++ {
+			same = got[i].MinerAddress == want[i].Addr && string(got[i].NodeID) == string(want[i].NodeID) && got[i].Rank == uint32(i)
+		}
+		if !same {
+			r.Violate(prop+"/loaded-term-differs-from-reference", fmt.Sprintf("the term loaded from the accepted snapshot block is %s, the reference elects %v: %s", got, want, desc), c)
+		}
 	}
 	return u
 }
@@ -670,27 +428,54 @@ func diffLine(a, b string) string {
 func enumerate(all []op) []caseID {
 	var cases []caseID
 	for si, st := range states {
-		for ci := range candidates[st.name] {
+		for ci, cand := range candidates[st.name] {
+			snapCand := strings.HasPrefix(cand.name, "snapshot")
 			for oi := range all {
+				if all[oi].group == "snapshot" && !snapCand {
+					continue
+				}
 				for mi := range modes {
 					for _, fr := range []bool{false, true} {
 						if fr && all[oi].group != "txs" && all[oi].group != "logs" {
 							continue
 						}
-						cases = append(cases, caseID{State: si, Cand: ci, Ops: []int{oi}, Mode: mi, FixRoots: fr})
+						for _, dr := range []bool{false, true} {
+							if dr && all[oi].group != "snapshot" {
+								continue
+							}
+							cases = append(cases, caseID{State: si, Cand: ci, Ops: []int{oi}, Mode: mi, FixRoots: fr, DepRoot: dr})
+						}
+					}
+					// the node's clock around the block's timestamp: the valid block and every time operator
+					if all[oi].group == "none" || all[oi].group == "time" {
+						for ki := 1; ki < len(clocks); ki++ {
+							cases = append(cases, caseID{State: si, Cand: ci, Ops: []int{oi}, Mode: mi, Clock: ki})
+						}
 					}
 				}
 			}
 			if core.Thorough() {
-				// all pairs of operators from different groups, re-signed by the miner or kept
+				// all pairs of operators from different groups, re-signed by the miner or by another deputy
 				for a := range all {
 					for b := a + 1; b < len(all); b++ {
 						if all[a].group == all[b].group || all[a].group == "none" {
 							continue
 						}
-						for _, mi := range []int{1, 2} {
-							cases = append(cases, caseID{State: si, Cand: ci, Ops: []int{a, b}, Mode: mi, FixRoots: true})
+						if (all[a].group == "snapshot" || all[b].group == "snapshot") && !snapCand {
+							continue
 						}
+						for _, mi := range []int{1, 2} {
+							cases = append(cases, caseID{State: si, Cand: ci, Ops: []int{a, b}, Mode: mi, FixRoots: true, DepRoot: all[a].group == "snapshot" || all[b].group == "snapshot"})
+						}
+					}
+				}
+				// every operator at the two clock positions on either side of the tolerance, re-signed by the miner
+				for oi := range all {
+					if all[oi].group == "snapshot" && !snapCand || all[oi].group == "none" || all[oi].group == "time" {
+						continue
+					}
+					for _, ki := range []int{2, 3} {
+						cases = append(cases, caseID{State: si, Cand: ci, Ops: []int{oi}, Mode: 1, FixRoots: all[oi].group == "txs" || all[oi].group == "logs", DepRoot: all[oi].group == "snapshot", Clock: ki})
 					}
 				}
 			}
@@ -702,6 +487,8 @@ func enumerate(all []op) []caseID {
 func main() {
 	core.ParseFlags()
 	node.Quiet()
+	params.TermDuration, params.InterimDuration = termDur, interim
+	vclock.SetUnix(lateClock)
 	vtask.SetPolicy(vtask.Gated, "runFeedTranspondLoop", vtask.Drop)
 	all := ops()
 	cases := enumerate(all)
@@ -711,14 +498,15 @@ func main() {
 			fmt.Println(err)
 			os.Exit(2)
 		}
+		replayMode = true
 		tr = buildTree()
 		r := core.NewResult(prop, "exploration")
+		fmt.Println("replay", c.String(all))
 		u := runCase(nil, c, all, r)
 		if u != nil {
 			u.n.Destroy()
 		}
 		tr.f.Destroy()
-		fmt.Println("replay", c.String(all))
 		for _, v := range r.Violations {
 			fmt.Printf("VIOLATION-REPLAYED %s\n%s\n", v.Fingerprint, v.What)
 		}
@@ -751,19 +539,84 @@ func main() {
 		core.WorkerDone(r)
 	}
 	r := core.NewResult(prop, "exploration")
-	r.Rule = fmt.Sprintf("every single mutation operator (%d operators in groups parent/miner/roots/height/gas/time/extra/txs/logs/deputies) x %d signing modes x {roots recomputed or not} on %d (chain state, valid candidate block) pairs; thorough adds all pairs of operators from different groups re-signed by a deputy; an outcome is (verdict, operator group, signing mode)", len(all), len(modes), func() int {
-		n := 0
-		for _, st := range states {
-			n += len(candidates[st.name])
+	nc := 0
+	for _, st := range states {
+		nc += len(candidates[st.name])
+	}
+	groups := map[string]int{}
+	var gl []string
+	for _, o := range all {
+		if groups[o.group] == 0 {
+			gl = append(gl, o.group)
 		}
-		return n
-	}())
-	r.Assume = []string{"3 genesis deputies, 10 s slots, observer node; wall clock is far later than every honest block time", "gasLimit and extra are the miner's free choices (validRef re-executes with the block's own values)"}
+		groups[o.group]++
+	}
+	for i, g := range gl {
+		gl[i] = fmt.Sprintf("%s:%d", g, groups[g])
+	}
+	r.Rule = fmt.Sprintf("every single mutation operator (%d operators, groups %s; group snapshot only on snapshot-height candidates, each with the DeputyRoot kept and recomputed) x %d signing modes x {tx/log roots recomputed or not} on %d (chain state, valid candidate block) pairs from %d chain states (ordinary heights, forks, after a stable advance, a pruned fork, and a term change: snapshot height, the block after it, first and second block of the new term); the valid block and every time operator additionally at %d positions of the node's clock relative to the block's timestamp (-2 s .. +2 s, millisecond parts 0 and 999); thorough adds all pairs of operators from different groups re-signed by a deputy and every operator at the two clock positions around the tolerance; an outcome is (verdict, operator group, signing mode) or (clock position, verdict)", len(all), strings.Join(gl, " "), len(modes), nc, len(states), len(clocks)-1)
+	r.Assume = []string{
+		"3 genesis deputies, 10 s slots, observer node; the node's clock is the harness's virtual clock (instrumenter pass `time` on chain and chain/consensus): 61 s (two rounds and a second) after the candidate's timestamp unless the case names a clock position",
+		fmt.Sprintf("params.TermDuration=%d, params.InterimDuration=%d for the whole process (snapshot height %d, the new term signs from height %d); 3 deputy seats, 7 registered candidates with votes {~150000, 50000 x4 (tie broken by address, two above and two below the cut), ~10000, 0}", termDur, interim, termDur, termDur+interim+1),
+		"gasLimit and extra are the miner's free choices (validRef re-executes with the block's own values)",
+		"oracle 3 (a block satisfying every clause is not refused) reads the statement's one-second tolerance as granted, not merely permitted; it is only applied above the stable height and when the signing term can be known to the node",
+	}
 	r.Extra["cases"] = len(cases)
 	core.RunShards(r, core.Opt.Workers, nil, core.Opt.Budget+2*time.Minute, func(i int, tail, journal string) {
 		r.Violate(prop+"/worker-died/"+firstWords(lastPanicLine(tail)), fmt.Sprintf("worker %d died while running case {%s}:\n%s", i, journal, clipTail(tail)), map[string]string{"case": journal})
 	})
+	coverage(r, all)
 	core.Finish(r)
+}
+
+// coverage: the branches the extension is about must have been executed on both sides; otherwise
+// the run does not count as exhaustive.
+func coverage(r *core.Result, all []op) {
+	if !r.Exhaustive {
+		return
+	}
+	need := func(counter string) {
+		if r.Counters[counter] == 0 {
+			r.NotExhaustive("coverage: counter " + counter + " is zero")
+		}
+	}
+	for i := 1; i < len(clocks); i++ {
+		v := "accepted"
+		if clocks[i].offMs < -1000 {
+			v = "rejected"
+		}
+		need("clock[block.time" + clocks[i].name + "]/valid-block/" + v)
+	}
+	for _, st := range states {
+		for _, cand := range candidates[st.name] {
+			switch cand.name {
+			case "tx-on-pruned-fork", "first-of-new-term(term not loaded)":
+				need("valid-candidate[" + st.name + "/" + cand.name + "]/rejected")
+			case "snapshot-with-vote-for-rank2":
+				// what the engine seals here is the subject of a finding; either verdict counts as executed
+				if r.Counters["valid-candidate["+st.name+"/"+cand.name+"]/accepted"]+r.Counters["valid-candidate["+st.name+"/"+cand.name+"]/rejected"] == 0 {
+					need("valid-candidate[" + st.name + "/" + cand.name + "]/accepted")
+				}
+			default:
+				need("valid-candidate[" + st.name + "/" + cand.name + "]/accepted")
+			}
+		}
+	}
+	hit := map[string]int64{}
+	for _, o := range all {
+		k := "op[" + o.group + ":" + o.name + "]/"
+		hit[o.group] += r.Counters[k+"accepted"] + r.Counters[k+"rejected"]
+		if r.Counters[k+"accepted"]+r.Counters[k+"rejected"] == 0 {
+			r.NotExhaustive("coverage: operator " + o.group + ":" + o.name + " was never applied")
+		}
+	}
+	r.Extra["operator_applications_by_group(single, default clock)"] = hit
+	need("op[extra:extra=256]/accepted")
+	need("op[extra:extra=257]/rejected")
+	need("op[time:time=now+1]/accepted")
+	need("op[time:time=now+2]/rejected")
+	need("known-block-reinserted/unchanged")
+	need("accepted-snapshot-block/became-stable-and-term-loaded")
 }
 
 func lastPanicLine(tail string) string {
@@ -777,7 +630,7 @@ func lastPanicLine(tail string) string {
 
 func clipTail(s string) string {
 	if len(s) > 3000 {
-		return s[:3000]
+		s = s[:3000]
 	}
 	return s
 }
